@@ -78,33 +78,174 @@ func hybridPrecedence(p *Prog) []string {
 	return out
 }
 
-// hybridCategory classifies a key (or key prefix) the way getCategory does
-// with the default configuration: shared-persistent | shared | persistent | runtime.
-func hybridCategory(r *Report, key string) string {
-	tabs := hybridPrefixTables(r.P)
-	match := func(list []string) bool {
-		for _, pre := range list {
-			// a key family prefix "classifies" when every key of the family matches the table
-			// prefix (table prefix is a prefix of the family prefix)
-			if strings.HasPrefix(key, pre) {
-				return true
+// hybDecision is one step of getCategory: a predicate on the key, the prefix table the predicate
+// matches against, and the category returned when it holds.
+type hybDecision struct {
+	pred  string
+	table []string
+	cat   string
+	known bool
+}
+
+var hybDecisionsCache []hybDecision
+
+// globalStringTable reads `var X = []string{...}` of the hybrid package from its init function.
+func globalStringTable(p *Prog, g *ssa.Global) []string {
+	if g.Pkg == nil {
+		return nil
+	}
+	init := g.Pkg.Func("init")
+	if init == nil {
+		return nil
+	}
+	arr := map[ssa.Value][]string{}
+	Instrs(init, func(in ssa.Instruction) {
+		if st, ok := in.(*ssa.Store); ok {
+			if ia, ok := st.Addr.(*ssa.IndexAddr); ok {
+				if c, ok := st.Val.(*ssa.Const); ok {
+					arr[ia.X] = append(arr[ia.X], constString(c))
+				}
 			}
 		}
-		return false
+	})
+	var out []string
+	Instrs(init, func(in ssa.Instruction) {
+		if st, ok := in.(*ssa.Store); ok && st.Addr == ssa.Value(g) {
+			if sl, ok := st.Val.(*ssa.Slice); ok {
+				out = arr[sl.X]
+			}
+		}
+	})
+	return out
+}
+
+// predicateTable: the prefix table a key predicate of the hybrid package matches against (a Config
+// field read from DefaultConfig, or a package-level slice), found through its strings.HasPrefix call.
+func predicateTable(p *Prog, g *ssa.Function, depth int) ([]string, bool) {
+	if g == nil || len(g.Blocks) == 0 || depth > 2 {
+		return nil, false
 	}
-	for _, test := range hybridPrecedence(r.P) {
-		switch test {
-		case "isSharedPersistent":
-			if match(tabs["SharedPersistentPrefixes"]) {
-				return "shared-persistent"
+	tabs := hybridPrefixTables(p)
+	var out []string
+	found := false
+	Instrs(g, func(in ssa.Instruction) {
+		c, ok := in.(*ssa.Call)
+		if !ok || found {
+			return
+		}
+		if CalleeOf(c).Is("strings:HasPrefix") {
+			// the prefix is an element of the table: peel loads, element addresses and range values
+			v := Arg(c, 1)
+			for i := 0; i < 8 && v != nil; i++ {
+				switch x := v.(type) {
+				case *ssa.UnOp:
+					v = x.X
+					continue
+				case *ssa.IndexAddr:
+					v = x.X
+					continue
+				case *ssa.Index:
+					v = x.X
+					continue
+				case *ssa.Extract:
+					if nx, ok := x.Tuple.(*ssa.Next); ok {
+						if rg, ok := nx.Iter.(*ssa.Range); ok {
+							v = rg.X
+							continue
+						}
+					}
+				case *ssa.Global:
+					if t := globalStringTable(p, x); len(t) > 0 {
+						out, found = t, true
+					}
+				case *ssa.FieldAddr:
+					if t, fld, _, ok := FieldOf(x); ok && t == "Config" {
+						if tb, ok := tabs[fld]; ok {
+							out, found = tb, true
+						}
+					}
+				case *ssa.Parameter:
+					// a shared matcher `hasAnyPrefix(key, list)`: resolved at the call site by the caller
+				}
+				break
 			}
-		case "isShared":
-			if match(tabs["SharedPrefixes"]) {
-				return "shared"
+			return
+		}
+		if h := c.Common().StaticCallee(); h != nil && h.Pkg == g.Pkg && h != g {
+			if t, ok := predicateTable(p, h, depth+1); ok {
+				out, found = t, true
 			}
-		case "isPersistent":
-			if match(tabs["PersistentPrefixes"]) {
-				return "persistent"
+		}
+	})
+	return out, found
+}
+
+// hybridDecisions reads getCategory as an ordered list of (predicate, category) steps.
+func hybridDecisions(p *Prog) []hybDecision {
+	if hybDecisionsCache != nil {
+		return hybDecisionsCache
+	}
+	f := p.Fn(hybPkg, "Storage.getCategory")
+	if f == nil {
+		return nil
+	}
+	consts := categoryConsts(p)
+	name := map[string]string{"SharedPersistent": "shared-persistent", "Shared": "shared", "Persistent": "persistent", "Runtime": "runtime"}
+	type step struct {
+		c   *ssa.Call
+		cat string
+	}
+	var steps []step
+	Instrs(f, func(in ssa.Instruction) {
+		iff, ok := in.(*ssa.If)
+		if !ok {
+			return
+		}
+		cond, pol := normCond(iff.Cond, true)
+		c, ok := cond.(*ssa.Call)
+		if !ok || c.Common().StaticCallee() == nil {
+			return
+		}
+		succ := iff.Block().Succs[0]
+		if !pol {
+			succ = iff.Block().Succs[1]
+		}
+		for _, x := range succ.Instrs {
+			if ret, ok := x.(*ssa.Return); ok && len(ret.Results) == 1 {
+				if k, ok := ConstInt(ret.Results[0]); ok {
+					steps = append(steps, step{c, name[consts[k]]})
+				}
+			}
+		}
+	})
+	for i := 0; i < len(steps); i++ {
+		for j := i + 1; j < len(steps); j++ {
+			if Before(steps[j].c, steps[i].c) {
+				steps[i], steps[j] = steps[j], steps[i]
+			}
+		}
+	}
+	var out []hybDecision
+	for _, st := range steps {
+		g := st.c.Common().StaticCallee()
+		t, ok := predicateTable(p, g, 0)
+		out = append(out, hybDecision{pred: g.Name(), table: t, cat: st.cat, known: ok && st.cat != ""})
+	}
+	hybDecisionsCache = out
+	return out
+}
+
+// hybridCategory classifies a key (or key prefix) the way getCategory does with the default
+// configuration: the category of the first step whose table has a prefix of the key; runtime when
+// none matches; "undecided" when a step cannot be evaluated.
+func hybridCategory(r *Report, key string) string {
+	for _, d := range hybridDecisions(r.P) {
+		if !d.known {
+			return "undecided(" + d.pred + ")"
+		}
+		for _, pre := range d.table {
+			if strings.HasPrefix(key, pre) {
+				return d.cat
 			}
 		}
 	}
